@@ -576,7 +576,7 @@ Proof.
 Qed.
 
 (* regression (the old witness of F801): `status: None` with a status subresource is planned for /status as {"status": null};
-   the examples with a server are further down (po_ex_status_null_*) *)
+   the examples with a server are further down: po_ex_status_null_plan, _scripted, _removed *)
 Example po_status_null_split :
   po_split true [("status", JNull)] = ([], Some (JObj [("status", JNull)])) /\
   po_split true [("metadata", JObj []); ("status", JNull)] = ([("metadata", JObj [])], Some (JObj [("status", JNull)])) /\
